@@ -43,8 +43,9 @@ func normalizeInvoiceTax(inv *bill.Invoice) {
 	}
 	addr := inv.Supplier.Addresses[0]
 	// Take a set of different names for the same region and attempt
-	// to use them to set the region code automatically.
-	switch strings.ToLower(addr.Region) {
+	// to use them to set the region code automatically. The address
+	// has not been normalized yet, so ignore any surrounding whitespace.
+	switch strings.ToLower(strings.TrimSpace(addr.Region)) {
 	case "alava", "álava", "araba", "vi":
 		tx.Ext[ExtKeyRegion] = "VI"
 	case "bizkaia", "vizcaya", "bi":
